@@ -897,7 +897,9 @@ func serveOne(c *restful.Container, env *dispEnv, i int, h Sx) Sx {
 		poisoned = true
 		return L(L(A("request-blocked")), 0, Ls{}, A(""), 0, Ls{}, 0)
 	}
-	ce := rec.Header().Get("Content-Encoding")
+	// the coding the client is told: the header as it was when the status line went out (the recorder's snapshot), not
+	// the handler's live map - a label taken back after WriteHeader is still what the client decodes by
+	ce := rec.Result().Header.Get("Content-Encoding")
 	body := rec.Body.Bytes()
 	ok := 1
 	if ce != preset || preset == "" {
@@ -912,9 +914,14 @@ func serveOne(c *restful.Container, env *dispEnv, i int, h Sx) Sx {
 			}
 		case "deflate":
 			var zr interface{ Read([]byte) (int, error) }
-			zr, err = zlib.NewReader(bytes.NewReader(body))
+			src := bytes.NewReader(body)
+			zr, err = zlib.NewReader(src)
 			if err == nil {
 				dec, err = ioutil.ReadAll(zr)
+			}
+			if err == nil && src.Len() > 0 {
+				// (compress/zlib stops at the end of the stream; compress/gzip reports what follows by itself)
+				err = fmt.Errorf("%d bytes after the end of the deflate stream", src.Len())
 			}
 		default:
 			dec = body
